@@ -11,5 +11,6 @@ CONSTANTS
   DecoAlphabet = {}
   BigChoices = {}
   LaggedRecordedAtSetup = FALSE
+  Hyp_NoCap = FALSE
 POSTCONDITION AllConsumed
 CHECK_DEADLOCK FALSE
